@@ -5,6 +5,7 @@
 //! (or on a gadget reachable through its public accessors) and exposes the outputs. `reference`
 //! is written from the trait documentation over `BigUint` / `bool` / bytes (the map uses
 //! `map::cpu`, as DESIGN names it as the reference).
+#![allow(dead_code)] // also mounted by c09.rs, which uses a subset
 
 use std::{cell::RefCell, sync::OnceLock};
 
